@@ -1174,15 +1174,21 @@ def run(ctx):
             absorbing_decl = [bool(pc["mdp"]["absorbing"][s_]) for s_ in sl]
             detail = {"case": case, "step": j, "error": out["error"]}
             sig = "C16:raises:" + etype
-            if etype in ("UnboundLocalError", "LinAlgError") and tiny_class_case(pc["mdp"], sl) is not None:
-                sig = "C16:undiscounted:tiny-probabilities:raises:" + etype
-                detail["class_rule"] = TINY_RULE
-            elif etype in ("UnboundLocalError", "LinAlgError") and near_one_continuing(pc["mdp"], None, state_list=sl):
-                # same root cause as the gamma-near-one value errors (numerically singular Gram system): either the
-                # solve raises LinAlgError, or the noisy non-zero gain keeps the gain improvement step switching
-                # for all max_iterations and bias_q is never bound (UnboundLocalError)
-                sig = "C16:discounted:gamma-near-one:raises:" + etype
-                detail["class_rule"] = NEAR_ONE_RULE
+            # inside the two recorded classes the evaluation system is numerically singular / inconsistent: the finding
+            # is that singularity, not the exception class it surfaces as (LinAlgError from the Gram solve,
+            # UnboundLocalError when the noisy gain keeps the gain step switching for all max_iterations, "expected
+            # square matrix" from a QR-based solve, ...).  ANY exception type raised inside a class gets the class's
+            # `raises` signature; the three (class, type) pairs recorded first keep their typed signature.
+            TYPED = {("tiny", "LinAlgError"), ("near-one", "LinAlgError"), ("near-one", "UnboundLocalError")}
+            cls = None
+            if tiny_class_case(pc["mdp"], sl) is not None:
+                cls, base, rule = "tiny", "C16:undiscounted:tiny-probabilities:raises", TINY_RULE
+            elif near_one_continuing(pc["mdp"], None, state_list=sl):
+                cls, base, rule = "near-one", "C16:discounted:gamma-near-one:raises", NEAR_ONE_RULE
+            if cls is not None:
+                sig = base + (":" + etype if (cls, etype) in TYPED else "")
+                detail["class_rule"] = rule + "; any exception type raised inside the class"
+                detail["exception_type"] = etype
             ctx.violation(sig, detail, found=True)
             continue
         if not out["converged"]:
